@@ -103,7 +103,11 @@ def build(program, order, persist=True):
         if out.get("outcome") == "accepted":
             accepted.append(k)
         if persist and program.get("persist_after") is not None and pos == program["persist_after"]:
-            m2 = faults.persist(w.m, program["persist_how"])
+            try:
+                m2 = faults.persist(w.m, program["persist_how"])
+            except faults.PersistFailed as e_:
+                w.violate("copy_equal", str(e_), i)
+                return w, accepted
             a, b = snap.snapshot(w.m), snap.snapshot(m2)
             if a != b:
                 w.violate("copy_equal", "copy between make_trainable calls differs: " + "; ".join(snap.diff(a, b)[:3]), i)
@@ -233,10 +237,14 @@ def execute(program):
                 w.violate("untouched_rows", f"{key} is not trainable but the simulation uses {got[row]!r} in row {row}, the table shows {col[row]!r}", nidx)
                 return res()
     # ---- (B) deep copy with set per group
-    base = copy.deepcopy(m)
-    with quiet():
-        base.delete_trainables()
-    mB = copy.deepcopy(base)
+    try:
+        base = faults.persist(m, "deepcopy")
+        with quiet():
+            base.delete_trainables()
+        mB = faults.persist(base, "deepcopy")
+    except faults.PersistFailed as e_:
+        w.violate("copy_equal", str(e_), nidx)
+        return res()
     ps = None
     with quiet():
         for t, v in zip(ref.trainables, vals):
@@ -278,6 +286,42 @@ def execute(program):
         w.violate("param_paths_equal", f"data_set differs from set() by {simrun.maxdiff(outB[mask], outC[mask]):.3e}", nidx, {"paths": "data_set_vs_set"})
         return res()
     w.chain.add("paths", {"out": snap.arrays_digest(outA), "vals": vals})
+    # ---- data_set is functional: integrate must not modify the caller's param_state, and feeding the same object
+    #      twice gives the same result.  Probed on a synapse parameter of an edge that is not the first of its type.
+    if ref.edges:
+        cand = [e for e, ed in enumerate(ref.edges) if any(x["type"] == ed["type"] for x in ref.edges[:e])] or list(range(len(ref.edges)))
+        e_ = cand[program.get("edit_seed", 0) % len(cand)]
+        syn_ = [s_ for s_ in ref.syns if s_["name"] == ref.edges[e_]["type"]][0]
+        key_ = sorted(syn_["params"])[program.get("edit_seed", 0) % len(syn_["params"])]
+        lo, hi = mech.value_range(key_, syn_["params"][key_], False)
+        val_ = uval(program.get("edit_seed", 0), key_ + "reuse", 0, lo, hi)
+        with quiet():
+            ps2 = base.select(edges=[e_]).data_set(key_, val_, None)
+        frozen = [(d["key"], np.asarray(d["indices"]).tolist(), np.asarray(d["val"]).tolist()) for d in ps2]
+        try:
+            o1 = integ(w, base, program, param_state=ps2)
+            o2 = integ(w, base, program, param_state=ps2)
+        except HarnessError:
+            raise
+        except Exception as e:  # noqa: BLE001
+            w.violate("param_paths_equal", f"data_set of {key_} on synapse {e_} raised {exc_text(e)}", nidx, {"paths": "data_set_reuse"})
+            return res()
+        w.bump("oracle_param_state_reuse")
+        now = [(d["key"], np.asarray(d["indices"]).tolist(), np.asarray(d["val"]).tolist()) for d in ps2]
+        if now != frozen:
+            w.violate("param_paths_equal", f"integrate modified the caller's param_state: {frozen} became {now}", nidx, {"paths": "data_set_reuse"})
+            return res()
+        if not np.array_equal(o1, o2, equal_nan=True):
+            w.violate("param_paths_equal", f"feeding the same param_state ({key_} on synapse {e_}) to a second integrate changes the result by {simrun.maxdiff(o1, o2):.3e}", nidx, {"paths": "data_set_reuse"})
+            return res()
+        mS = faults.persist(base, "deepcopy")
+        with quiet():
+            mS.select(edges=[e_]).set(key_, val_)
+        o3 = integ(w, mS, program)
+        if not simrun.close(o1[mask], o3[mask], **TOL_SAME):
+            w.violate("param_paths_equal", f"data_set of {key_} on synapse {e_} differs from set() by {simrun.maxdiff(o1[mask], o3[mask]):.3e}", nidx, {"paths": "data_set_vs_set"})
+            return res()
+
     # ---- reorder of the make_trainable calls
     order = [k for k in program["order"] if k < nt] + [k for k in canonical if k not in program["order"]]
     overlap = any(len([1 for t in ref.trainables if t["key"] == key and row in [r_ for g in t["groups"] for r_ in g]]) > 1
